@@ -4,6 +4,8 @@
     non-null values, sums to 1, is the value joined for scoring; completeness = share of
     non-null cells per dataset; comparison-vector distribution and match-weight histogram
     partition the scored pairs; unlinkables cum_prop = share of records at or below p).
+ T  translators/c20_sql.py regenerates the five SQL snippets from /repo and compares their
+    sqlglot-normalised text with the forms the model was written against (syntactic tie).
  X  real compute_tf_table, completeness_data, comparison-vector distribution (captured from
     comparison_viewer_dashboard), histogram_data (match_weights_histogram) and unlinkables_data
     (unlinkables_chart) on DuckDB and SQLite vs the model evaluated inside Coq; every case is
@@ -56,6 +58,7 @@ def run(ctx: Ctx):
                        "9 Coq-evaluated comparisons (2 tf tables, tf join, completeness per column, cvd, histogram, unlinkables); "
                        "non-trivial = has NULLs, >= 2 distinct gamma vectors and >= 2 listed unlinkable probabilities.")
     ctx.trusted += [
+        "translators/c20_sql.py (sqlglot-normalised text of the five SQL snippets compared with the audited forms; syntactic)",
         "harness X: gamma vectors, match weights and self-link scores are read from the implementation (scoring is C02's subject)",
         "modelled not verified: SQL GROUP BY / window / round() of the engines; DuckDB casts proportions, completeness and "
         "bin_high to 32-bit floats (tolerance 1e-6; cum_prop 1e-5); cases with a score within 1e-9 of a bin edge or a self "
@@ -65,6 +68,18 @@ def run(ctx: Ctx):
     ok = ctx.proof_stage("Properties/C20.v")
     if not ok:
         ctx.violation("theorems of Properties/C20.v no longer check", {"broken": "Properties/C20.v"}, found_input=False)
+
+    # T: the SQL snippets the model was written against are still the ones /repo emits
+    broken_T = []
+    try:
+        from translators import c20_sql as T
+        now = T.snippets()
+        for name, want in T.EXPECTED.items():
+            if not ctx.obligation(f"SQL shape of {name} is the modelled one", now.get(name) == want, str(now.get(name))[:300]):
+                broken_T.append(name)
+    except Exception as e:  # fail closed
+        ctx.obligation("regenerate the descriptive SQL snippets", False, repr(e))
+        broken_T.append("translation failed: " + repr(e)[:200])
 
     if ctx.replay:
         rp = json.loads(open(ctx.replay).read())
@@ -133,4 +148,7 @@ def run(ctx: Ctx):
                       + str([labels[i] for i in bad_idx[:6]]),
                       {"broken": "correspondence C20_x", "outputs": [labels[i] for i in bad_idx[:10]],
                        "cases": [cases[i] for i in which], "errors": errs[:2]}, found_input=False)
+    if broken_T and not found_any:
+        ctx.violation("descriptive SQL differs from the text Model/Descriptive.v was written against: " + ", ".join(broken_T),
+                      {"broken": "T: SQL shape of " + ", ".join(broken_T)}, found_input=False)
     shutil.rmtree(X.SCRATCH, ignore_errors=True)
